@@ -15,6 +15,9 @@ pub fn run(args: &[String]) -> i32 {
     let mut in_lang = 0u64;
     let mut nontrivial = 0u64;
     let mut violations: BTreeMap<String, (u64, Value)> = BTreeMap::new();
+    // field-level C02: serialise, re-parse, compare value and text
+    let mut c02: BTreeMap<String, (u64, Value)> = BTreeMap::new();
+    let mut c02_evaluated = 0u64;
     let mut panics: BTreeMap<String, u64> = BTreeMap::new();
     let mut per_tag: BTreeMap<String, u64> = BTreeMap::new();
     let mut samples: Vec<Value> = Vec::new();
@@ -46,6 +49,29 @@ pub fn run(args: &[String]) -> i32 {
                 if want { hit(format!("C05|Field{}|in-format-rejected|{}", tag, lab), json!({"err": e})); }
             }
             Ok(Some(Ok(o))) => {
+                // ---- C02 at field level: whatever is accepted must survive its own serialisation
+                {
+                    c02_evaluated += 1;
+                    let ser = lf(&o.ser);
+                    let body = ser.strip_prefix(&format!(":{}:", tag)).unwrap_or(&ser).to_string();
+                    let mut c02hit = |sig: String, extra: Value| {
+                        let mut r = replay.clone();
+                        r["detail"] = extra;
+                        let e = c02.entry(sig).or_insert((0, r));
+                        e.0 += 1;
+                    };
+                    match guarded(|| parse_by_tag(tag, &body)) {
+                        Ok(Some(Ok(o2))) => {
+                            if o2.json != o.json {
+                                c02hit(format!("C02|Field{}|value-changed|{}", tag, lab), json!({"ser": o.ser, "first": o.json, "second": o2.json}));
+                            } else if lf(&o2.ser) != ser {
+                                c02hit(format!("C02|Field{}|not-fixed-point|{}", tag, lab), json!({"ser": o.ser, "ser2": o2.ser}));
+                            }
+                        }
+                        Ok(Some(Err(e))) => c02hit(format!("C02|Field{}|reparse-rejected|{}", tag, lab), json!({"ser": o.ser, "err": e})),
+                        _ => {}
+                    }
+                }
                 if !want {
                     hit(format!("C05|Field{}|out-of-format-accepted|{}", tag, lab), json!({"ser": o.ser, "json": o.json}));
                 } else {
@@ -100,8 +126,22 @@ pub fn run(args: &[String]) -> i32 {
         if single { subsumed += 1; }
         !single
     });
+    // same minimisation for the field-level round-trip results; a field whose typical content
+    // already fails subsumes all its deviating contents
+    let keys2: std::collections::BTreeSet<String> = c02.keys().cloned().collect();
+    c02.retain(|sig, _| {
+        let parts: Vec<&str> = sig.splitn(4, '|').collect();
+        if parts.len() < 4 || parts[3].is_empty() {
+            return true;
+        }
+        if keys2.contains(&format!("{}|{}|{}|", parts[0], parts[1], parts[2])) {
+            return false;
+        }
+        !(parts[3].contains(" & ") && parts[3].split(" & ").any(|l| keys2.contains(&format!("{}|{}|{}|{}", parts[0], parts[1], parts[2], l))))
+    });
     let violations: Vec<Value> = violations.iter().map(|(sig, (n, r))| json!({"sig": sig, "count": n, "replay": r})).collect();
+    let c02v: Vec<Value> = c02.iter().map(|(sig, (n, r))| json!({"sig": sig, "count": n, "replay": r})).collect();
     std::fs::write(out_path, json!({"evaluated": evaluated, "in_language": in_lang, "distinct_nontrivial": nontrivial,
-        "fields": per_tag.len(), "subsumed_multi_deviation": subsumed, "violations": violations, "panics_noted_for_C07": panics, "samples": samples}).to_string()).expect("write");
+        "fields": per_tag.len(), "subsumed_multi_deviation": subsumed, "violations": violations, "c02_evaluated": c02_evaluated, "c02_violations": c02v, "panics_noted_for_C07": panics, "samples": samples}).to_string()).expect("write");
     0
 }
